@@ -1,10 +1,11 @@
 #!/venv/bin/python
-"""bin/mutants <ID> [name ...] : sensitivity test. Each mutant in mutants/<ID>.json is a string replacement
-{name, file, old, new[, count]} applied to a scratch copy of /repo/commonroad under /var/tmp (removed afterwards);
-the property's quick check must exit 1 on it. Prints caught/MISSED per mutant."""
+"""Same protocol as bin/mutants, but the scratch copy is taken from MUT_SRC (default /tmp/wt-c10, the worktree with
+the Circle fix) instead of /repo, so that a mutant is not 'caught' merely because of a defect of the pinned tree.
+usage: MUT_SRC=/tmp/wt-c10 MUT_PAR=2 MUT_NPROC=4 agent_reports/C10/mutants_wt.py C10 [name ...]"""
 import json, os, shutil, subprocess, sys, tempfile, time
 from concurrent.futures import ThreadPoolExecutor
-HERE = os.path.dirname(os.path.dirname(os.path.abspath(__file__)))
+HERE = "/verif"
+SRC = os.environ.get("MUT_SRC", "/tmp/wt-c10")
 prop = sys.argv[1].upper()
 only = set(sys.argv[2:])
 muts = json.load(open(os.path.join(HERE, "mutants", prop + ".json")))
@@ -12,8 +13,10 @@ def run(m):
     if only and m["name"] not in only:
         return None
     d = tempfile.mkdtemp(prefix="crmut.", dir="/var/tmp")
+    home = tempfile.mkdtemp(prefix="crmuthome.", dir="/var/tmp")
     try:
-        shutil.copytree("/repo/commonroad", os.path.join(d, "commonroad"), ignore=shutil.ignore_patterns("__pycache__"))
+        shutil.copytree(os.path.join(SRC, "commonroad"), os.path.join(d, "commonroad"),
+                        ignore=shutil.ignore_patterns("__pycache__"))
         p = os.path.join(d, m["file"])
         s = open(p).read()
         n = s.count(m["old"])
@@ -21,22 +24,19 @@ def run(m):
             return (m["name"], "PATCH-ERROR old occurs %d times" % n, 0)
         open(p, "w").write(s.replace(m["old"], m["new"]))
         t0 = time.time()
-        env = dict(os.environ, VERIF_REPO=d, VERIF_NPROC=os.environ.get("MUT_NPROC", "8"), VERIF_MAX_ROUNDS="1")
-        args = [os.path.join(HERE, "bin", "check"), prop, "--no-evidence"]
-        for f in m.get("facets", []):
-            args += ["--facet", f]
-        r = subprocess.run(args, env=env, capture_output=True, text=True)
+        env = dict(os.environ, VERIF_REPO=d, VERIF_NPROC=os.environ.get("MUT_NPROC", "4"))
+        r = subprocess.run([os.path.join(HERE, "bin", "check"), prop, "--no-evidence"], env=env, capture_output=True,
+                           text=True)
         buckets = sorted({l.split("bucket=")[1] for l in r.stdout.splitlines() if l.startswith("violation ")})
         status = "caught" if r.returncode == 1 else ("MISSED" if r.returncode == 0 else "HARNESS-ERROR rc=%d" % r.returncode)
         if r.returncode not in (0, 1):
             sys.stderr.write(r.stdout[-3000:] + r.stderr[-3000:])
-        return (m["name"], status + " " + ",".join(buckets)[:300], time.time() - t0)
+        return (m["name"], status + " " + ",".join(buckets)[:600], time.time() - t0)
     finally:
         shutil.rmtree(d, ignore_errors=True)
-        # replays written while testing mutants are not kept
+        shutil.rmtree(home, ignore_errors=True)
 with ThreadPoolExecutor(int(os.environ.get("MUT_PAR", "2"))) as ex:
     res = [r for r in ex.map(run, muts) if r]
 for name, status, t in res:
     print("%-40s %s (%.0fs)" % (name, status, t))
-bad = [r for r in res if not r[1].startswith("caught")]
-sys.exit(1 if bad else 0)
+sys.exit(1 if [r for r in res if not r[1].startswith("caught")] else 0)
